@@ -173,12 +173,26 @@ def trxc_path(ctx, r):
 	from vf import sim
 	w = sim.World(ctx.seed)
 	node = w.add("127.0.0.1", 5700)
-	for _ in range(ctx.scale(150, 3000)):
-		hsn = r.randrange(64)
-		n = r.randint(1, 64)
-		maio = r.randrange(n)
+	prev = None
+	for _ in range(ctx.scale(300, 6000)):
+		if prev is not None and r.random() < 0.4:
+			# configured again with the same HSN, MAIO and number of channels, but other channels
+			hsn, maio, n = prev
+			ctx.count("setfh_reconfigured_same_shape")
+		else:
+			hsn = r.randrange(64)
+			n = r.randint(1, 64)
+			maio = r.randrange(n)
+		prev = (hsn, maio, n)
 		rx = r.sample(range(800000, 990000, 200), n)
-		rx.sort()
+		k = r.random()
+		if k < 0.5:
+			rx.sort()
+		elif k < 0.7:
+			# the order of the Mobile Allocation is the order given (e.g. ARFCN 0 / E-GSM channels come last)
+			rx.sort()
+			cut = r.randrange(n)
+			rx = rx[cut:] + rx[:cut]
 		tx = [f + 45000 for f in rx]
 		cmd = "SETFH %d %d %s" % (hsn, maio, " ".join("%d %d" % (a, b) for a, b in zip(rx, tx)))
 		rsp = node.ctrl_raw(("CMD " + cmd + "\0").encode())
